@@ -1,2 +1,3 @@
+@property
 def spec(self):
     return chain.from_iterable(((((o, n), m) for n, m in md.items()) for o, md in self.monitors_.items()))
